@@ -3595,11 +3595,9 @@ class Graph(_protocols.GraphProtocol, Sequence[Node], _display.PrettyPrintable):
         self.name = name
 
         # Private fields that are not to be accessed by any other classes
-        self._inputs = _graph_containers.GraphInputs(self, inputs)
-        self._outputs = _graph_containers.GraphOutputs(self, outputs)
-        self._initializers = _graph_containers.GraphInitializers(
-            self, {initializer.name: initializer for initializer in initializers}
-        )
+        self._inputs = _graph_containers.GraphInputs(self)
+        self._outputs = _graph_containers.GraphOutputs(self)
+        self._initializers = _graph_containers.GraphInitializers(self)
         self._doc_string = doc_string
         self._opset_imports = opset_imports or {}
         self._metadata: _metadata.MetadataStore | None = None
@@ -3608,6 +3606,25 @@ class Graph(_protocols.GraphProtocol, Sequence[Node], _display.PrettyPrintable):
         # Be sure the initialize the name authority before extending the nodes
         # because it is used to name the nodes and their outputs
         self._name_authority = _name_authority.NameAuthority()
+
+        # Check all arguments first so that no value or node is modified when the
+        # construction is rejected
+        inputs = tuple(inputs)
+        outputs = tuple(outputs)
+        nodes = tuple(nodes)
+        initializer_dict = {initializer.name: initializer for initializer in initializers}
+        for value in inputs:
+            self._inputs._check_value(value)  # pylint: disable=protected-access
+        for value in outputs:
+            self._outputs._check_value(value)  # pylint: disable=protected-access
+        for key, value in initializer_dict.items():
+            self._initializers._check_item(key, value)  # pylint: disable=protected-access
+        for node in nodes:
+            self._check_node_can_be_added(node)
+
+        self._inputs.extend(inputs)
+        self._outputs.extend(outputs)
+        self._initializers.update(initializer_dict)
         # TODO(justinchuby): Trigger again if inputs or initializers are modified.
         self._set_input_and_initializer_value_names_into_name_authority()
         # Call self.extend not self._nodes.extend so the graph reference is added to the nodes
